@@ -155,6 +155,13 @@ func (h *HistRecorder) Check(timeout time.Duration) (string, string) {
 	case porcupine.Ok:
 		return "ok", ""
 	case porcupine.Illegal:
+		// narrow the witness down to one identity
+		for _, part := range regModel.Partition(ops) {
+			if r, _ := porcupine.CheckOperationsVerbose(regModel, part, timeout); r == porcupine.Illegal {
+				ops = part
+				break
+			}
+		}
 		s := ""
 		for i, op := range ops {
 			if i > 80 {
